@@ -31,12 +31,14 @@ def main():
     assert rc == 0, out
     meta = {"property": prop, "name": name, "base_commit": sh("git -C /repo rev-parse --short HEAD", "/")[1].strip(), "ran": []}
     try:
-        first = open(demo).readline()
-        m = re.search(r"go test[^\n]*", first)
+        first = " ".join(l.strip().lstrip("/").strip() for l in open(demo).readlines()[:4])
+        m = re.search(r"go test.*?(\./[\w/.]+)", first)
         cmd = m.group(0).strip() if m else None
+        if "--dir" in sys.argv:
+            os.makedirs(os.path.join(wt, sys.argv[sys.argv.index("--dir") + 1]), exist_ok=True)
         d = re.search(r"(?:into|in|to)\s+`?([\w/.-]+)/?`?", first)
         target = None
-        for cand in re.findall(r"[\w./-]+/", first) + re.findall(r"\./([\w/]+)", cmd or ""):
+        for cand in ([sys.argv[sys.argv.index("--dir") + 1]] if "--dir" in sys.argv else []) + re.findall(r"[\w./-]+/", first) + re.findall(r"\./([\w/]+)", cmd or ""):
             c = cand.strip("./")
             if c and os.path.isdir(os.path.join(wt, c)):
                 target = c
